@@ -32,7 +32,8 @@ def gen(rng, spec):
     if r < 0.52:
         return search.extreme_rows(rng, search.gen_case(rng, beam=True, max_n=5, family='softmax'))
     if r < 0.6:
-        return search.gen_case(rng, beam=True, max_n=6)
+        nb = rng.choice((1, 1, 2, 3, 5))
+        return search.gen_case(rng, beam=True, max_n=5 if nb > 1 else 6, nbest=nb, sparse=nb > 1)
     if r < 0.72:
         return search.gen_case(rng, max_n=5, many_cats=True, nbest=rng.choice((1, 1, 2)))
     if r < 0.7:
